@@ -78,8 +78,11 @@ public:
     {
         const Matrix& residues = this->m_ritz_pairs.residues();
         const Vector& eigvals = this->m_ritz_pairs.ritz_values();
-        Matrix correction = Matrix::Zero(this->m_matrix_operator.rows(), this->m_correction_size);
-        for (Index k = 0; k < this->m_correction_size; k++)
+        // There are only as many Ritz pairs as the search space has vectors: a correction size
+        // set above the (initial) search space size must not read past them
+        const Index ncorr = (std::min)(this->m_correction_size, Index(eigvals.size()));
+        Matrix correction = Matrix::Zero(this->m_matrix_operator.rows(), ncorr);
+        for (Index k = 0; k < ncorr; k++)
         {
             Vector tmp = eigvals(k) - m_diagonal.array();
             // A Ritz value can coincide exactly with a diagonal entry (a decoupled coordinate,
